@@ -22,6 +22,7 @@ package internal
 
 import (
 	"context"
+	"errors"
 	"fmt"
 	"math"
 	"net"
@@ -30,6 +31,7 @@ import (
 	"testing"
 	"time"
 
+	"github.com/gotid/god/lib/breaker"
 	"github.com/gotid/god/lib/logx"
 	"github.com/gotid/god/rpc/internal/mock"
 	"github.com/gotid/god/rpc/resolver"
@@ -51,6 +53,7 @@ type c14CliOpt struct {
 type c14CliCase struct {
 	B    int         `json:"b"` // backends
 	Opts []c14CliOpt `json:"opts"`
+	Twin bool        `json:"twin,omitempty"` // a second client, built from the SAME option values, alive at the same time on two other backends
 }
 
 func c14BinomTail(k int, q float64, b int) float64 {
@@ -171,6 +174,56 @@ func c14Client(c c14CliCase) (v kit.Verdict) {
 	}
 	defer cli.Conn().Close()
 
+	// twin: two rpc clients in one process share the registered balancer builder, the
+	// resolver registry and (here) the very same ClientOption values.
+	var cli2 Client
+	counts2 := make([]int64, 2)
+	var callsA, callsB int64
+	if c.Twin {
+		classes["twin-clients"] = true
+		var eps2 []string
+		for i := 0; i < 2; i++ {
+			i := i
+			lis, err := net.Listen("tcp", "127.0.0.1:0")
+			if err != nil {
+				v.Excluded = true
+				return done()
+			}
+			srv := grpc.NewServer(grpc.UnaryInterceptor(func(ctx context.Context, req interface{},
+				_ *grpc.UnaryServerInfo, handler grpc.UnaryHandler) (interface{}, error) {
+				atomic.AddInt64(&counts2[i], 1)
+				return handler(ctx, req)
+			}))
+			mock.RegisterDepositServiceServer(srv, &mock.DepositServer{})
+			go func() { _ = srv.Serve(lis) }()
+			defer srv.Stop()
+			eps2 = append(eps2, lis.Addr().String())
+		}
+		cli2, err = NewClient(resolver.BuildDirectTarget(eps2), opts...)
+		if err != nil {
+			classes["dial-failed"] = true
+			v.Excluded = true
+			return done()
+		}
+		defer cli2.Conn().Close()
+	}
+	callBoth := func() error {
+		if err := call(cli.Conn()); err != nil {
+			return err
+		}
+		callsA++
+		if cli2 != nil {
+			if err := call(cli2.Conn()); err != nil {
+				return err
+			}
+			callsB++
+		}
+		return nil
+	}
+	twinHit := func() bool {
+		return cli2 == nil || (atomic.LoadInt64(&counts2[0]) > 0 && atomic.LoadInt64(&counts2[1]) > 0)
+	}
+
 	hit := func(base []int64) (all bool, missing []int) {
 		all = true
 		for i := range counts {
@@ -194,19 +247,19 @@ func c14Client(c c14CliCase) (v kit.Verdict) {
 	start := time.Now()
 	calls := 0
 	for {
-		if err := call(cli.Conn()); err != nil {
+		if err := callBoth(); err != nil {
 			classes["call-failed"] = true
 			v.Excluded = true
 			return done()
 		}
 		calls++
-		if all, _ := hit(zero); all {
+		if all, _ := hit(zero); all && twinHit() {
 			break
 		}
 		if time.Since(start) > 10*time.Second {
 			_, missing := hit(zero)
-			v.Fail = fmt.Sprintf("options %+v: %d sequential calls over 10 s to %d reachable backends, backends %v never served one (per backend: %v): the client does not balance",
-				c.Opts, calls, c.B, missing, snapshot())
+			v.Fail = fmt.Sprintf("options %+v twin=%v: %d sequential calls per client over 10 s to %d reachable backends, backends %v never served one (per backend: %v; second client's backends: %v): the client does not balance",
+				c.Opts, c.Twin, calls, c.B, missing, snapshot(), []int64{atomic.LoadInt64(&counts2[0]), atomic.LoadInt64(&counts2[1])})
 			return done()
 		}
 		if calls%64 == 0 {
@@ -219,7 +272,7 @@ func c14Client(c c14CliCase) (v kit.Verdict) {
 	after, needK := 0, math.MaxInt
 	n := 0
 	for {
-		if err := call(cli.Conn()); err != nil {
+		if err := callBoth(); err != nil {
 			classes["call-failed"] = true
 			v.Excluded = true
 			return done()
@@ -251,16 +304,31 @@ func c14Client(c c14CliCase) (v kit.Verdict) {
 			c.Opts, n, time.Since(t0), after, missing, cur)
 		return done()
 	}
+	// every call succeeded, so every call was served by exactly one backend: each client's
+	// calls must all have landed on its own backends
+	var sumA, sumB int64
+	for i := range counts {
+		sumA += atomic.LoadInt64(&counts[i])
+	}
+	sumB = atomic.LoadInt64(&counts2[0]) + atomic.LoadInt64(&counts2[1])
+	if sumA != callsA || sumB != callsB {
+		v.Fail = fmt.Sprintf("options %+v twin=%v: client 1 made %d calls and its %d backends served %d; client 2 made %d calls and its 2 backends served %d: calls reached backends of the other client's target",
+			c.Opts, c.Twin, callsA, c.B, sumA, callsB, sumB)
+		return done()
+	}
 	for _, o := range c.Opts {
 		if o.K == "creds" && len(c.Opts) > 1 {
 			v.NonTrivial = true
 		}
 	}
+	if c.Twin {
+		v.NonTrivial = true
+	}
 	return done()
 }
 
 func c14CliGen(rt *rapid.T) c14CliCase {
-	c := c14CliCase{B: rapid.IntRange(2, 4).Draw(rt, "b")}
+	c := c14CliCase{B: rapid.IntRange(2, 4).Draw(rt, "b"), Twin: rapid.Bool().Draw(rt, "twin")}
 	n := rapid.IntRange(0, 5).Draw(rt, "nopts")
 	for i := 0; i < n; i++ {
 		o := c14CliOpt{K: rapid.SampledFrom([]string{"dial", "creds", "creds", "timeout", "nonblock", "unary", "stream"}).Draw(rt, "k")}
@@ -359,17 +427,33 @@ func c14Sick(c c14SickCase) (v kit.Verdict) {
 	defer cli.Conn().Close()
 	dep := mock.NewDepositServiceClient(cli.Conn())
 	// call reports whether the call was answered by the failing backend
-	call := func() (sick bool, ok bool) {
+	// While the failing backend is the only ready one (the others are still connecting)
+	// every call fails and the client-side breaker of rpc/internal opens: it rejects calls
+	// with breaker.ErrServiceUnavailable (a plain error, status code Unknown) before any
+	// pick is made. Such a rejection is not a call: wait a little and go on.
+	rejected := 0
+	var call func() (sick bool, ok bool)
+	call = func() (sick bool, ok bool) {
 		ctx, cancel := context.WithTimeout(context.Background(), 10*time.Second)
-		defer cancel()
 		_, err := dep.Deposit(ctx, &mock.DepositRequest{Amount: 0})
+		cancel()
 		if err == nil {
 			return false, true
+		}
+		if errors.Is(err, breaker.ErrServiceUnavailable) && rejected < 100000 {
+			rejected++
+			classes["breaker-rejections"] = true
+			time.Sleep(time.Millisecond)
+			return call()
 		}
 		if status.Code(err) == code {
 			return true, true
 		}
-		classes["call-failed-"+status.Code(err).String()] = true
+		msg := err.Error()
+		if len(msg) > 80 {
+			msg = msg[:80]
+		}
+		classes["call-failed-"+status.Code(err).String()+": "+msg] = true
 		return false, false
 	}
 	start := time.Now()
